@@ -28,6 +28,15 @@ def run(chk, replay=None):
                 "dictionary: all strings of length <= %d over 40 symbols through the implementation; non-trivial = distinct (replacement, name) pairs with a non-empty name" % (3 if thorough else 2))
     repls = [b'REDACTED', b'X', b'', b'r.e.p', 'ré"\\'.encode(), b'REDACTED_0000000000000000', b'100%', b'%s_%x %d', b'$$ n.a.']
     names = gen_names(rng, 3000 if thorough else 600)
+    # names shaped like the tool's own output under each replacement in use - exactly (a pseudonym of a pseudonym is still a pseudonym: the function has no
+    # "already done" case) and nearly (prefix + 16 bytes that are not hex, 15 / 17 hex digits, upper-case hex, the prefix alone) - alone, after '$', as a component
+    for r in repls:
+        try: rs = r.decode('utf-8')
+        except Exception: continue
+        for tail in ('_customer_numbers', '_' + 'g' * 16, '_0123456789abcdef', '_0123456789ABCDEF', '_0123456789abcde', '_0123456789abcdef0', '_', '', '_subscription_log'):
+            for form in ('%s', '$%s', 'db.%s', '%s.coll', '%s.%s'):
+                names.append((form % ((rs + tail,) * form.count('%s'))).encode('utf-8'))
+    names = list(dict.fromkeys(names))
     # --- correspondence: SHA-256 and HashName, model vs Go
     blobs = [bytes(rng.randrange(256) for _ in range(rng.choice([0, 1, 3, 55, 56, 57, 63, 64, 65, 119, 120, 128, 200]))) for _ in range(120)]
     hres = run_harness([{"op": "sha256", "s": b64(x)} for x in blobs])
